@@ -107,6 +107,29 @@ theorem hoist_exec (b : Body) (hwf : LayoutWF b.items = true) :
       execIL ms subs fuel ea σ = execIL ms subs fuel eb σ :=
   denote_eq_exec _ _ (hoist_denote b hwf)
 
+/-- `denoteIL` only depends on the inlined declarations (in order) and the returned term. -/
+theorem denoteIL_of_ilDecls (a b : Body) (hd : ilDecls a.items = ilDecls b.items)
+    (hr : returned a.items = returned b.items) : denoteIL a = denoteIL b := by
+  simp only [denoteIL, buildEnvIL_eq_envOfDecls, hd, hr]
+
+/-- What the driver request `(layout-rel <RS text> <EC text>)` buys (Model/DriverLayout.lean): if it answers
+    `(wf 1) (hoist-equal 1)` for the parsed bodies, both texts denote the same term — whatever comments and operand
+    declarations they contain and wherever these are placed. -/
+theorem layout_rel_sound (rs ec : Body) (hwf : LayoutWF rs.items = true)
+    (heq : hoistEqual rs.items ec.items = true) : denoteIL ec = denoteIL rs := by
+  simp only [hoistEqual, Bool.and_eq_true] at heq
+  have h1 := declsEqb_sound _ _ heq.1
+  have h2 := optTermEqb_sound _ _ heq.2
+  rw [← hoist_denote rs hwf]
+  exact denoteIL_of_ilDecls ec { rs with items := hoistPures rs.items } h1.symm h2.symm
+
+/-- The test is complete for the intended case: the hoisted list itself passes. -/
+theorem hoistEqual_self (items : List Item) : hoistEqual items (hoistPures items) = true := by
+  simp only [hoistEqual, Bool.and_eq_true, declsEqb_refl, true_and]
+  cases returned (hoistPures items) with
+  | none => rfl
+  | some t => exact Term.eqb_refl t
+
 /-! ### Non-vacuity and necessity of the hypotheses (kernel-checked) -/
 
 /-- READ_STATEMENTS layout of two statements: each one pure/bool declaration directly in front of the effect
